@@ -12,6 +12,118 @@ from .c17 import native_binary, run_native
 FILTERS = []
 
 
+def _scalar_alts(v, cond=None):
+    """[(condition, kind, value)] of a ScalarValue built from aggregates / merges; kind 'call:<site>' for an opaque call"""
+    cond = z3.BoolVal(True) if cond is None else cond
+    if isinstance(v, sym.Agg):
+        if re.search(r"Result::.*Ok$|::Ok$", v.tag) and v.fields:
+            return _scalar_alts(v.fields[0], cond)
+        m = re.search(r"ScalarValue::(\w+)$", v.tag)
+        if m:
+            return [(cond, m.group(1), v)]
+        return [(cond, "other", v)]
+    if isinstance(v, sym.Phi):
+        out = []
+        for c, x in v.alts:
+            out += _scalar_alts(x, z3.And(cond, c))
+        return out
+    if isinstance(v, sym.Opaque):
+        return [(cond, "call:" + v.label, v)]
+    return [(cond, "other", v)]
+
+
+def merged_min_max(ctx):
+    """the coordinator's finalisation of a merged MIN / MAX state prefers the number, like Min / Max::finalize"""
+    needle = "merge-aggregate_stream-{impl#0}-agg_state_to_scalar."
+    b = Builder(ctx, needle, "AggregateStreamMerger::agg_state_to_scalar", {})
+    E, q = b.E, ctx.q
+    r = b.mk("B-3", "AggregateStreamMerger::agg_state_to_scalar: a merged MIN / MAX state that holds a numeric extreme is reported as that "
+                    "number, whether or not it also holds a string extreme (flows that saw only nulls contribute an empty string) - "
+                    "the same precedence Min / Max::finalize use, so the answer does not depend on how the events were split")
+    out = [b.results["B-3"]]
+    if not r:
+        return out
+    if not E.returns:
+        r.status = "inconclusive"
+        r.notes.append("no return")
+        return out
+    r.nontrivial = True
+    alts = []
+    for (_n, reach, env) in E.returns:
+        alts += _scalar_alts(env.get(0), reach)
+    seen_arms = set()
+    state_disc = z3.BitVec("disc(arg:state)", 64)
+    for arm in ("Min", "Max"):
+        num = z3.BitVec(f"disc(arg:state:{arm}.0)", 64)
+        vi = E.structs.variant_index(f"AggState::{arm}")
+        if vi is None:
+            r.status = "inconclusive"
+            r.notes.append("AggState variants not found in the source")
+            return out
+        in_arm = state_disc == vi
+        st = []
+        for (c, k, v) in alts:
+            res, _ = q.check(c, in_arm, domain=E.domain)
+            r.queries += 1
+            if res == z3.sat and k != "other":
+                st.append((z3.And(c, in_arm), k, v))
+        for c, k, v in st:
+            seen_arms.add(arm)
+            if k.startswith("call:"):
+                # finalisation delegated to a helper of the same impl: decide it there
+                site = k[5:]
+                call = [e for e in E.events if e.site == site]
+                name = re.sub(r"#\d+.*$", "", site).split("::")[-1]
+                hb = Builder(ctx, f"merge-aggregate_stream-{{impl#0}}-{name}.", f"AggregateStreamMerger::{name}", {})
+                if hb.E is None or not call or not hb.E.returns:
+                    r.status = "inconclusive"
+                    r.notes.append(f"{arm}: finalisation delegated to {name}, whose body was not found")
+                    return out
+                a0 = sym.describe(call[0].args[0]) if call[0].args else ""
+                if f"arg:state:{arm}.0" not in a0 and not re.search(rf"'{arm}'\)\('field', 0", a0) \
+                        and f"{arm.lower()}_num" not in " ".join(E.trace(call[0].args[0], call[0].env, depth=4)):
+                    r.status = "inconclusive"
+                    r.notes.append(f"{arm}: first argument of {name} is not the numeric extreme ({a0[:60]})")
+                    return out
+                H = hb.E
+                first = [n for n in H.fn.debug if f"_{H.fn.args[0]}" in H.fn.debug[n]] if H.fn.args else []
+                hnum = z3.BitVec(f"disc(arg:{first[0] if first else 'num'})", 64)
+                halts = []
+                for (_n2, reach2, env2) in H.returns:
+                    halts += _scalar_alts(env2.get(0), reach2)
+                for c2, k2, _v2 in halts:
+                    if k2 != "Int64":
+                        res, model = q.check(c2, hnum == 1, domain=H.domain)
+                        r.queries += 1
+                        if res == z3.sat:
+                            r.status = "violated"
+                            r.witness = {"what": f"{arm}: {name} reports a {k2} value although the merged state holds a numeric extreme "
+                                                 "(e.g. one flow saw only nulls and contributed an empty string): the answer depends on the split",
+                                         "span": None, "call": f"AggregateStreamMerger::{name}", "path": [], "model": {}}
+                            return out
+                continue
+            if k != "Int64":
+                res, model = q.check(c, num == 1, domain=E.domain)
+                r.queries += 1
+                if res == z3.sat:
+                    r.status = "violated"
+                    r.witness = {"what": f"{arm}: a {k} value is reported although the merged state holds a numeric extreme",
+                                 "span": None, "call": "agg_state_to_scalar", "path": E.path_of_model(model)[-8:], "model": {}}
+                    return out
+            else:
+                # the number reported is the state's numeric extreme
+                src = E.trace(v.fields[0], E.returns[0][2], depth=4) | {sym.describe(v.fields[0])} if v.fields else set()
+                if not any(f"arg:state:{arm}.0" in x for x in src):
+                    r.status = "violated"
+                    r.witness = {"what": f"{arm}: the number reported is not the state's numeric extreme ({sorted(src)[:3]})",
+                                 "span": None, "call": "agg_state_to_scalar", "path": [], "model": {}}
+                    return out
+    if seen_arms != {"Min", "Max"}:
+        r.status = "inconclusive"
+        r.notes.append(f"MIN / MAX arms not both recognised: {sorted(seen_arms)}")
+    return out
+
+
 def obligations(ctx):
     out = []
     native_done = None
@@ -75,6 +187,7 @@ def obligations(ctx):
                     r.notes.append("native demonstration did not reproduce: " + str(native_done[1]))
                 break
     out += simd_tail(ctx)
+    out += merged_min_max(ctx)
     return out
 
 
